@@ -167,6 +167,36 @@ def _check_slice(ctx, sch, d, p, tk, prof, a, b, rnd):
                           {**describe_doc(sch, d), "from": a, "to": b})
         if c3 is not None and c3 != flat.cut_children(p[4], a, len(tk), leaf):
             ctx.violation("cut", "cut(%d) differs from the reference cut" % a, {**describe_doc(sch, d), "from": a})
+        # the same on an inner node (text nodes included: positions are UTF-16 units of its text)
+        inner = []
+        d.descendants(lambda nd, pos, par, idx: inner.append(nd) or True)
+        if inner:
+            nd = rnd.choice(inner)
+            ip = flat.pt(nd)
+            m = len(flat.units(ip[1])) if ip[0] == "t" else flat.size(ip[4], leaf)
+            x = rnd.randint(0, m)
+            y = rnd.randint(x, m)
+            if rnd.random() < 0.25:
+                x, y = rnd.choice([(0, 0), (m, m), (0, m), (x, x)])
+            if ip[0] == "t" and (x == y or x == m):
+                x, y = 0, rnd.randint(1, m)  # an empty cut of a text node raises (no empty text nodes), as upstream
+            try:
+                g1 = flat.pt(nd.cut(x, y))
+                g2 = flat.pt(nd.cut(x))
+            except Exception as e:
+                ctx.violation("cut-raised", "%s.cut(%d,%d) raised %s: %s" % (nd.type.name, x, y, type(e).__name__, e),
+                              {**describe_doc(sch, d), "node": str(nd)[:100], "from": x, "to": y}, {"exc": type(e).__name__})
+                return
+            ctx.count("inner_cut_checked")
+            if ip[0] == "t":
+                us = flat.units(ip[1])
+                e1, e2 = ("t", flat.units_to_str(us[x:y]), ip[2]), ("t", flat.units_to_str(us[x:]), ip[2])
+            else:
+                e1 = ("n", ip[1], ip[2], ip[3], flat.cut_children(ip[4], x, y, leaf))
+                e2 = ("n", ip[1], ip[2], ip[3], flat.cut_children(ip[4], x, m, leaf))
+            if g1 != e1 or g2 != e2:
+                ctx.violation("cut", "%s.cut(%d,%d) / cut(%d) = %r / %r, reference %r / %r" % (nd.type.name, x, y, x, g1, g2, e1, e2),
+                              {**describe_doc(sch, d), "node": str(nd)[:100], "from": x, "to": y}, {"inner": True, "text": ip[0] == "t"})
     # identity law
     if a <= b:
         try:
